@@ -377,6 +377,86 @@ Section DapProofs.
   Theorem bp_no_overrun : forall c0 tr,
     (reset_lcp = false -> no_self_loop) -> disciplined StateHeld tr (init c0) = true -> bp_ok StateHeld tr (init c0) false = true.
   Proof. intros. apply bp_run; auto. apply K_init. Qed.
+
+  (* ------------------------------------------------------------------ the session thread survives every request *)
+  Definition no_launch_event (e : mevent) : Prop :=
+    match e with RSC Launching _ => False | RSC _ Launching => False | _ => True end.
+
+  Definition needs_running_machine (l : sloc) : bool :=
+    match l with SResume | SPauseRead _ | SPausePublish _ _ | SStepExec _ => true | _ => false end.
+
+  Definition NInv (s : st) : Prop :=
+    Forall no_launch_event (chan s) /\
+    sl s <> SDead /\
+    (needs_running_machine (sl s) = true -> rs s <> Launching) /\
+    ((ml s = MRead \/ ml s = MChecked) -> rs s <> Launching).
+
+  Lemma NInv_init : forall c, NInv (init c).
+  Proof.
+    intro c. unfold NInv, init; simpl. repeat split; intros; try discriminate; auto.
+    destruct H; discriminate.
+  Qed.
+
+  Lemma Forall_app1 : forall (l : list mevent) e, Forall no_launch_event l -> no_launch_event e -> Forall no_launch_event (l ++ [e]).
+  Proof. intros. apply Forall_app. split; auto. Qed.
+
+  Lemma no_launch_rsc : forall a b, a <> Launching -> b <> Launching -> no_launch_event (RSC a b).
+  Proof. intros [| |p] [| |q] Ha Hb; simpl; auto. Qed.
+
+  Lemma NInv_step : forall p a s s' o, NInv s -> step_act p a s = Some (s', o) -> NInv s'.
+  Proof.
+    intros p a s s' o [N1 [N2 [N3 N4]]] H.
+    destruct s as [rs0 cp0 bps0 conn0 chan0 ml0 lcp0 sl0].
+    unfold NInv in *; simpl in *.
+    destruct a; simpl in H.
+    - (* M_read_state *) break_in H; inv_some; simpl; repeat split; intros; auto; try discriminate;
+        try (match goal with H : _ \/ _ |- _ => destruct H; discriminate end).
+    - (* M_check_bp *)
+      break_in H; inv_some. unfold do_check_bp; simpl.
+      assert (R : rs0 <> Launching) by (apply N4; auto).
+      destruct (opt_eqb lcp0 (pc cp0)); simpl; [repeat split; intros; auto|].
+      destruct (hit bps0 (pc cp0)); simpl; repeat split; intros; auto; try discriminate.
+      apply Forall_app1; auto. apply no_launch_rsc; auto; discriminate.
+    - (* M_execute *)
+      break_in H; inv_some. unfold do_execute; simpl.
+      destruct (fin cp0); simpl; repeat split; intros; auto; try discriminate;
+        try (match goal with H : _ \/ _ |- _ => destruct H; discriminate end).
+      apply Forall_app. split; auto. repeat constructor.
+    - (* S_req *)
+      break_in H; inv_some; simpl; repeat split; intros; auto; try discriminate.
+      + destruct r; simpl in *; discriminate.
+      + destruct r; simpl in *; try discriminate; destruct rs0; simpl in *; try discriminate.
+    - break_in H; inv_some; simpl; repeat split; intros; auto; try discriminate.
+    - (* S_resume *)
+      break_in H; inv_some; simpl; repeat split; intros; auto; try discriminate.
+      apply Forall_app1; auto. apply no_launch_rsc; auto; discriminate.
+    - break_in H; inv_some; simpl; repeat split; intros; auto; try discriminate.
+    - break_in H; inv_some; simpl; repeat split; intros; auto; try discriminate.
+    - break_in H; inv_some; simpl; repeat split; intros; auto; try discriminate.
+    - break_in H; inv_some; simpl; repeat split; intros; auto; try discriminate.
+    - break_in H; inv_some; simpl; repeat split; intros; auto; try discriminate.
+    - break_in H; inv_some; simpl; repeat split; intros; auto; try discriminate.
+    - (* S_step_exec *) break_in H; inv_some; simpl; repeat split; intros; auto; try discriminate.
+    - (* S_pause_read_pc *)
+      break_in H; inv_some; simpl; repeat split; intros; auto; try discriminate.
+      apply Forall_app1; auto. apply no_launch_rsc; auto; discriminate.
+    - (* S_pause_publish *)
+      break_in H; inv_some; simpl; repeat split; intros; auto; try discriminate.
+      apply Forall_app1; auto. apply no_launch_rsc; auto; discriminate.
+    - (* S_event *)
+      break_in H; inv_some; simpl; inversion N1; subst; repeat split; intros; auto; try discriminate.
+      all: exfalso; destruct m as [[| |?] [| |?]| |]; simpl in *; auto; discriminate.
+    - break_in H; inv_some; simpl; repeat split; intros; auto; try discriminate.
+  Qed.
+
+  Theorem session_never_dies : forall p c0 tr s, run p tr (init c0) = Some s -> sl s <> SDead.
+  Proof.
+    intros p c0 tr. generalize (NInv_init c0). generalize (init c0).
+    induction tr; simpl; intros s0 HN s H.
+    - inversion H; subst. apply HN.
+    - destruct (step_act p a s0) as [[s1 o]|] eqn:E; try discriminate.
+      eapply IHtr; [eapply NInv_step; eauto | eauto].
+  Qed.
 End DapProofs.
 
 (* a one-instruction loop (`hang: jmp hang`) with a breakpoint on it: after the first stop and `continue`, the loop
